@@ -8,12 +8,14 @@ from vf import rt
 from vf import world
 from vf.harness.c03 import Delegate
 
-PROBES = ['dflt', 'allow_a', 'deny_b', 'cons', 'Kmeth.meth']
+PROBES = ['dflt', 'allow_a', 'deny_b', 'cons', 'Kmeth.meth', 'allow_kwo', 'deny_kwo']
+NP = len(PROBES)
 FULL = {p: 'vw.' + p for p in PROBES}
 PARAMS = {'dflt': ('a', 'b'), 'allow_a': ('a', 'b'), 'deny_b': ('a', 'b'), 'cons': ('p', 'q'),
-          'Kmeth.meth': ('a', 'b')}
+          'Kmeth.meth': ('a', 'b'), 'allow_kwo': ('a', 'k'), 'deny_kwo': ('a', 'k')}
 DEFAULTS = {'dflt': {'a': world.DA, 'b': world.DB}, 'allow_a': {'a': world.DA}, 'deny_b': {'a': world.DA},
-            'cons': {'p': None, 'q': None}, 'Kmeth.meth': {'a': world.DA, 'b': world.DB}}
+            'cons': {'p': None, 'q': None}, 'Kmeth.meth': {'a': world.DA, 'b': world.DB},
+            'allow_kwo': {'a': world.DA}, 'deny_kwo': {'a': world.DA}}
 VK = ['5', "'text'", "[1, [2, 'x']]", '@vw.src()', '%mac', '%vwc.K', 'OBJECT', '@vw.src', "{'k': (1,)}"]
 VK_CANON = [5, 'text', [1, [2, 'x']], ('ref', 'vw.src', True), ('macro', 'mac'), ('macro', 'vwc.K'),
             None, ('ref', 'vw.src', False), {'k': (1,)}]
@@ -70,10 +72,10 @@ REBIND = [None, ('1', 1, 'True', True), ('%mac', ('macro', 'mac'), '%mac2', ('ma
 def c07_operative(rebind: int, nma2: int, p1: int, s1: bool, ma1: int, mb1: int, second: int, s2: bool, ma2: int, mb2: int,
                   broot: bool, vk: int, bscope: bool) -> bool:
   """
-  pre: 0 <= p1 < 5 and 0 <= ma1 < 5 and 0 <= mb1 < 2 and 0 <= second < 3 and 0 <= ma2 < nma2 and 0 <= mb2 < 2
+  pre: 0 <= p1 < 7 and 0 <= ma1 < 5 and 0 <= mb1 < 2 and 0 <= second < 3 and 0 <= ma2 < nma2 and 0 <= mb2 < 2
   pre: 0 <= vk < 9 and 0 <= rebind < 5
   """
-  p1 = rt.pick(p1, 5)
+  p1 = rt.pick(p1, NP)
   s1 = rt.flag(s1)
   ma1, mb1 = rt.pick(ma1, 5), rt.pick(mb1, 2)
   second = rt.pick(second, 3)           # 0: no second call, 1: same probe again, 2: the next probe
@@ -95,7 +97,7 @@ def c07_operative(rebind: int, nma2: int, p1: int, s1: bool, ma1: int, mb1: int,
     probe1 = PROBES[p1]
     calls = [(probe1, 's' if s1 else '', ma1, mb1)]
     if second:
-      probe2 = probe1 if second == 1 else PROBES[(p1 + 1) % 5]
+      probe2 = probe1 if second == 1 else PROBES[(p1 + 1) % NP]
       calls.append((probe2, 's' if s2 else '', ma2, mb2))
     rt.sig(('operative', tuple(calls), broot, vk, bscope), nontrivial=broot or bscope or second)
     # ---- configuration: the first parameter of probe1 is bound at root and/or in scope s ----
@@ -226,11 +228,11 @@ HARNESSES = {
         smoke=[dict(rebind=0, nma2=5, p1=0, s1=True, ma1=0, mb1=1, second=1, s2=False, ma2=2, mb2=0, broot=True, vk=3, bscope=True),
                dict(rebind=0, nma2=5, p1=1, s1=False, ma1=1, mb1=0, second=2, s2=True, ma2=0, mb2=0, broot=True, vk=4, bscope=False),
                dict(rebind=0, nma2=5, p1=4, s1=True, ma1=0, mb1=0, second=0, s2=False, ma2=0, mb2=0, broot=True, vk=6, bscope=True)],
-        tiers={'quick': dict(split=dict(p1=list(range(5)), second=[0, 1, 2], ma1=list(range(5))),
+        tiers={'quick': dict(split=dict(p1=list(range(7)), second=[0, 1, 2], ma1=list(range(5))),
                              fixed=dict(mb2=0, nma2=3), budget_s=100),
-               'thorough': dict(split=dict(p1=list(range(5)), second=[0, 1, 2], vk=list(range(NVK)),
+               'thorough': dict(split=dict(p1=list(range(7)), second=[0, 1, 2], vk=list(range(NVK)),
                                            ma1=list(range(5))), fixed=dict(nma2=5), budget_s=600)},
-        bounds='1-2 calls over 5 probes (plain, allow-listed, deny-listed, reference consumer, registered method), each '
+        bounds='1-2 calls over 7 probes (plain, allow-listed, deny-listed, reference consumer, registered method, keyword-only parameter outside the allowlist / inside the denylist), each '
                'in scope none/s with the first parameter omitted / positional / keyword / gin.REQUIRED positionally / '
                'gin.REQUIRED by keyword and the second omitted/keyword; the '
                'first parameter of the first probe bound at root with one of 9 value kinds (int, str, nested list, '
